@@ -86,6 +86,9 @@ impl<V: Vary> Iterator for ScanlineIter<V> {
         // pixel, otherwise it's the last covered pixel and the next one is
         // the actual one-past-the-end pixel.
         let (x0, x1) = (round_up_to_half(v0.0.x()), round_up_to_half(x1));
+        // Pixels left of the origin cannot be addressed with unsigned
+        // coordinates; start at the first one that can
+        let x0 = x0.max(0.5);
 
         // Adjust v0 to match the rounded x0
         let v0 = v0.lerp(&v0.step(&self.dv_dx), x0 - v0.0.x());
@@ -217,7 +220,10 @@ pub fn scan<V: Vary>(
     //   +-/---------+           +-----/-----+           +--/--------+
     //    p.x<0.5                    p.x>0.5              p.x<0.5
     //
-    let y0_rounded = round_up_to_half(y0);
+    // Rows above the origin cannot be addressed with unsigned coordinates;
+    // start at the first one that can (the edges are extrapolated there by
+    // `y_tweak` below)
+    let y0_rounded = round_up_to_half(y0).max(0.5);
     let y1_rounded = round_up_to_half(y1);
 
     let y_tweak = y0_rounded - y0;
